@@ -91,7 +91,7 @@ def src_min(e, labname):
     y, py = src_min(b, labname)
     if px > pr:
         x = "(%s)" % x
-    if py >= pr or y[:1] in "+-":
+    if py >= pr or y[:1] in "+-~":      # a prefix operator is only accepted at the start of a (bracketed) expression
         y = "(%s)" % y
     return "%s %s %s" % (x, op, y), pr
 
